@@ -390,13 +390,32 @@ def job_notifs(col: Collector, seed: int, tier: str) -> None:
     col.extra["notification_names"] = names
 
 
-JOBS = {"hyp": job_hyp, "notifs": job_notifs}
+def job_handlers(col: Collector, seed: int, tier: str) -> None:
+    """every tool / resource handler behaviour, called by its registered name: x 5 argument shapes x 4 ids x 3 constructions"""
+    for kind in HANDLER_KINDS:
+        for args in ("$omit", {}, {"x": 1}, None, {"x": "s", "_meta": None}):
+            for rid in (1, 0, "a", ""):
+                for how in ("parse", "unified", "specific"):
+                    params: Dict[str, Any] = {"name": "tool0"}
+                    if args != "$omit":
+                        params["arguments"] = args
+                    case = {"server": {"tools": [kind], "resources": [], "custom": []}, "method": "tools/call", "params": params, "how": how, "id": rid}
+                    col.record(case, check(case))
+    for kind in ("str", "none", "object", "raise"):
+        for rid in (1, 0, "a", ""):
+            for how in ("parse", "unified", "specific"):
+                case = {"server": {"tools": [], "resources": [kind], "custom": []}, "method": "resources/read", "params": {"uri": "file:///r0"}, "how": how, "id": rid}
+                col.record(case, check(case))
+    col.exhaustive_parts.append(f"{len(HANDLER_KINDS)} tool handler behaviours x 5 argument shapes x 4 ids x 3 constructions; 4 resource handler behaviours x 4 ids x 3 constructions")
+
+
+JOBS = {"hyp": job_hyp, "notifs": job_notifs, "handlers": job_handlers}
 
 
 def jobs(tier: str):
     if tier == "quick":
-        return [("hyp", {"shard": s, "n": 400}) for s in range(14)] + [("notifs", {})]
-    return [("hyp", {"shard": s, "n": 7000}) for s in range(15)] + [("notifs", {})]
+        return [("hyp", {"shard": s, "n": 400}) for s in range(13)] + [("notifs", {}), ("handlers", {})]
+    return [("hyp", {"shard": s, "n": 7000}) for s in range(14)] + [("notifs", {}), ("handlers", {})]
 
 
 def shrink(signature: str, seed: int):
